@@ -186,7 +186,7 @@ def check(case, ctx):
 @st.composite
 def case_st(draw):
     n = draw(st.integers(2, 9))
-    pubs = [[draw(st.integers(1, 240)), draw(st.integers(-40, 40))] for _ in range(n)]
+    pubs = [[draw(st.one_of(st.integers(1, 240), st.integers(1, 240), st.sampled_from([1440, 2881]))), draw(st.integers(-40, 40))] for _ in range(n)]
     end = sum(g for g, _ in pubs[:-1])
     kind = draw(st.sampled_from(["sum", "sum", "avg"]))
     step = draw(st.sampled_from([None, 0.0, 0.25, 0.5, 1.0]))
